@@ -88,11 +88,7 @@ def run_case(ctx, case, api=None):
                         with open(target, "wb") as fp:
                             fp.write(content)
                     else:
-                        with wave.open(target, "wb") as fp:
-                            fp.setframerate(case["rate"])
-                            fp.setsampwidth(case["width"])
-                            fp.setnchannels(case["channels"])
-                            fp.writeframes(content)
+                        AC.write_wav(target, content, case["rate"], case["width"], case["channels"], trailing_chunk=bool((case["pcm_seed"] >> 37) & 1))
                 if api.startswith("raw"):
                     regions = list(auditok.split(path, large_file=api.endswith("lazy"), **kw, **AC.audio_kwargs(case)))
                 else:
